@@ -267,7 +267,7 @@ pub fn json_escape(s: &str) -> String {
             '\n' => o.push_str("\\n"),
             '\r' => o.push_str("\\r"),
             '\t' => o.push_str("\\t"),
-            c if (c as u32) < 0x20 => {
+            c if (c as u32) < 0x20 || (0x7f..=0x9f).contains(&(c as u32)) || c == '\u{2028}' || c == '\u{2029}' => {
                 let _ = write!(o, "\\u{:04x}", c as u32);
             }
             c => o.push(c),
